@@ -8,7 +8,22 @@ from __future__ import annotations
 
 import asyncio
 import heapq
+import os
 import random
+
+
+def load_factor(cap: float = 8.0) -> float:
+    """How much slower than an idle machine we must expect to be: 1-minute load per core, at least 1.
+    Real-time watchdogs are multiplied by it so that a loaded machine (other checks running at the same time)
+    never turns slowness into a verdict or a machinery error.  Virtual-time runs are not affected."""
+    try:
+        return min(cap, max(1.0, os.getloadavg()[0] / (os.cpu_count() or 1)))
+    except OSError:
+        return 1.0
+
+
+def scaled(t: float | None) -> float | None:
+    return None if t is None else t * load_factor()
 
 
 async def settle(rounds: int = 3, real_io: float = 0.0, max_iter: int = 100000):
@@ -72,6 +87,8 @@ class Gates:
 def run(coro, timeout: float | None = 60.0, debug: bool = False):
     """Run a coroutine on a fresh loop with a watchdog.  Returns (result, None) or (None, exception);
     a watchdog expiry is reported as TimeoutError."""
+    timeout = scaled(timeout)
+
     async def main():
         if timeout is None:
             return await coro
